@@ -451,13 +451,13 @@ def summary(t, content=True):
 
 
 def make_world(ctx, shard):
-    return ls.World(ctx, 'w%d' % shard, ls.port_base_for_check(ctx.pid, shard), conf=CONF, memory_cache=True)
+    return br.patient_world(ctx, 'w%d' % shard, ls.port_base_for_check(ctx.pid, shard), conf=CONF, memory_cache=True)
 
 
 def make_world_small(ctx, shard):
     """Same, but Squid's TCP socket buffers are 4 KB (tcp_recv_bufsize sets both directions): a peer that does not
     read blocks Squid's writes after a few KB."""
-    return ls.World(ctx, 's%d' % shard, ls.port_base_for_check(ctx.pid, shard), conf=CONF + br.SMALLBUF_CONF, memory_cache=True)
+    return br.patient_world(ctx, 's%d' % shard, ls.port_base_for_check(ctx.pid, shard), conf=CONF + br.SMALLBUF_CONF, memory_cache=True)
 
 
 def world_maker(case):
@@ -495,7 +495,7 @@ def run(ctx):
     def rc(w, case):
         return run_case(w, case)
     r = ls.run_cases(ctx, [c for c in cases if c['fam'] != 'slowclient'], rc, make_world, key_of=key_of, determinism_n=10)
-    r2 = ls.run_cases(ctx, [c for c in cases if c['fam'] == 'slowclient'], rc, make_world_small, key_of=key_of, determinism_n=3)
+    r2 = ls.run_cases(ctx, [c for c in cases if c['fam'] == 'slowclient'], rc, make_world_small, key_of=key_of, determinism_n=3, nshards=4)
     r = br.merge_results(r, r2)
     oc = r['outcomes']
     complete = sum(v for k, v in oc.items() if ':complete' in k.split(' | ')[0])
